@@ -78,7 +78,7 @@ from llama_agents.cli.utils.redact import redact_api_key  # noqa: E402
 URLS = [DEFAULT_ENVIRONMENT.api_url, "https://b.example", "https://c.example", "https://d.example"]
 # api keys: KEYS[0] = None (-> profile name "default"); the others redact to the names below.
 KEYS = [None, "llx-AAzzzzzz0001", "llx-AAyyyyyyyy0001", "llx-BBzzzzzz0002", "sk-9"]
-NAMES = sorted({"default", "a@x.io", "b@x.io"} | {redact_api_key(k) for k in KEYS[1:]})
+NAMES = sorted({"default", "a@x.io", "A@x.io", "b@x.io"} | {redact_api_key(k) for k in KEYS[1:]})
 PROJ = ["  ", "proj-1", "proj-2", "proj-3"]          # PROJ[0] is blank: rejected by create_profile
 UIDS = [None, "user-1", "user-2", "user-3"]
 NE, NN = len(URLS), len(NAMES)
@@ -453,7 +453,13 @@ class Monitor:
         w = self.w
         self._pre = None
         if op[0] == "select":
-            p = w.svc.current_auth_service().get_profile(NAMES[op[1]])
+            # the profile of the current environment with EXACTLY that name (read from the listing, not through the
+            # lookup whose result is the thing under test)
+            a_ = w.svc.current_auth_service()
+            try:
+                p = next((q for q in a_.list_profiles() if q.name == NAMES[op[1]]), None)
+            except Exception:  # noqa: BLE001
+                p = a_.get_profile(NAMES[op[1]])
             self._pre = w.pid(p.id) if p else None
         elif op[0] == "selany":
             # "select any profile": the user names no profile; whichever profile of the current
@@ -483,6 +489,10 @@ class Monitor:
                 return ("C37/active-profile-of-other-env",
                         "the active profile (id %d) is not a profile of the current environment %s"
                         % (st["active"], URLS[env]))
+            if op[0] == "select" and row[0][1] != op[1]:
+                return ("C37/selected-name-activates-another-profile",
+                        "the user selected profile %r of %s; the active profile is %r - one the user did not pick"
+                        % (NAMES[op[1]], URLS[env], NAMES[row[0][1]]))
             if st["active"] not in self.picked:
                 how = {"envdel": "after-env-delete", "switch": "after-env-switch",
                        "envadd": "after-env-add"}.get(op[0], "after-" + op[0])
